@@ -6,11 +6,11 @@ from ..workloads import spec as W
 from ..trace import CallCounter
 from ..runner import classify_exception, exc_site, exc_text
 
-HOSTILE = [None, None, None, None, "near-degenerate", "huge-weight", "high-frequencies", "low-T", "gamma-only", "one-atom"]
+HOSTILE = [None, None, None, "weights-as-rounded-fractions", "near-degenerate", "huge-weight", "high-frequencies", "low-T", "gamma-only", "one-atom"]
 FILLS = ["zero", "small-negative", "garbage"]
 
 
-def gen_case(ctx, i, reuse=None):
+def gen_case(ctx, i, reuse=None, big=False):
     """``reuse`` = (v0, t, v) of an earlier case: a different spectrum on the very same (T,V) grid (process history)."""
     rng = ctx.rng("case", i)
     hostile = HOSTILE[i % len(HOSTILE)]
@@ -19,8 +19,15 @@ def gen_case(ctx, i, reuse=None):
     if reuse is not None and len(reuse) > 6:
         # the same numbers of q-points and atoms as the earlier case, so that every array has the shape it had there
         nq, natoms = (nq or reuse[5]), (natoms or reuse[6])
+    if big:
+        nq, natoms, hostile = 8, 12, None
     spec = W.gen_spectrum(rng, nq=nq, natoms=natoms, hostile=hostile)
     t, v = W.gen_grids(rng, spec, hostile=hostile)
+    if big:
+        # size is an input dimension: 100 temperatures x 80 volumes x 8 q-points x 36 modes (18 MB per array), the grid starting
+        # at 0 K or at 300 K
+        t = (0.0 if i % 2 else 300.0) + 25.0 * numpy.arange(100)
+        v = spec.v0 * numpy.exp(numpy.linspace(0.1, -0.22, 80))
     if reuse is not None:
         spec.v0, t, v = reuse[0], reuse[1].copy(), reuse[2].copy()
         if len(reuse) > 3 and reuse[3] is not None and len(reuse[3]) == spec.nq:
@@ -30,7 +37,7 @@ def gen_case(ctx, i, reuse=None):
         strains = reuse[4].copy()                  # ... and the same strain fractions: only the spectrum differs
     fill = FILLS[i % 3]
     calc = W.make_calc(rng, spec, t, v, gamma_fill=fill)
-    calc._oracle_spectrum = spec
+    calc._oracle_spectrum = None if big else spec        # (large grids: the closed-form second reference only; the numerical-derivative one is too slow)
     return rng, hostile, spec, t, v, strains, fill, calc
 
 
